@@ -162,6 +162,24 @@ func (w *world) visOf(s *svcSpec) string {
 					all = false
 				}
 			}
+			// matchExpressions as documented for Kubernetes label selectors
+			for _, e := range r.exprs {
+				got, has := lbl[e.key]
+				in := false
+				for _, v := range e.values {
+					in = in || (has && v == got)
+				}
+				switch e.op {
+				case "in":
+					all = all && in
+				case "notin":
+					all = all && !in
+				case "ex":
+					all = all && has
+				case "nex":
+					all = all && !has
+				}
+			}
 		}
 		if all {
 			return norm(p.vis)
@@ -247,6 +265,15 @@ func (w *world) oracleVis(nss []string) string {
 	return ""
 }
 
+// visPrefix: the visibility clauses are also evaluated inside the scope stream; there they carry a prefix
+// (fingerprint scope:vis-<clause>), in the vis stream they stand alone (vis:<clause>).
+func visPrefix(stream string) string {
+	if stream == "vis" {
+		return ""
+	}
+	return "vis-"
+}
+
 func oracleWorld(stream, in, out string) {
 	o := wire.Create(out)
 	defer o.Close()
@@ -267,7 +294,7 @@ func oracleWorld(stream, in, out string) {
 				case t[0] == "build":
 					w.build()
 					if v := w.oracleVis(nss); v != "" {
-						return "vis-" + v
+						return visPrefix(stream) + v
 					}
 				case t[0] == "update" || t[0] == "delete":
 					if w.ps == nil {
@@ -275,9 +302,12 @@ func oracleWorld(stream, in, out string) {
 					}
 					w.update(t)
 					if v := w.oracleVis(nss); v != "" {
-						return "vis-" + v
+						return visPrefix(stream) + v
 					}
 				case w.apply(t):
+				case t[0] == "mesh" || t[0] == "svc" || t[0] == "vs" || t[0] == "dr" || t[0] == "sc" || t[0] == "nsl":
+					// a declaration the reader does not understand (a corpus file in an outdated format)
+					return "unreadable-line " + wire.Enc(strings.Join(t, " "))
 				case w.ps == nil:
 				case stream == "scope":
 					if t[0] == "xdsgw" && len(t) == 2 {
@@ -291,7 +321,7 @@ func oracleWorld(stream, in, out string) {
 			if w.ps == nil {
 				w.build()
 				if v := w.oracleVis(nss); v != "" {
-					return "vis-" + v
+					return visPrefix(stream) + v
 				}
 			}
 			if stream == "scope" && len(routerNs) > 0 {
@@ -322,4 +352,17 @@ func oracleWorld(stream, in, out string) {
 		}
 	}
 	finish()
+	// branch counters of this oracle run
+	if len(branchCounters) > 0 {
+		c := wire.Create(out + ".counters")
+		keys := make([]string, 0, len(branchCounters))
+		for k := range branchCounters {
+			keys = append(keys, k)
+		}
+		sort.Strings(keys)
+		for _, k := range keys {
+			c.Line(k, fmt.Sprint(branchCounters[k]))
+		}
+		c.Close()
+	}
 }
